@@ -322,8 +322,28 @@ def rule_W1(ctx):
             if hit:
                 writers.setdefault(f["path"], set()).add("&mut cell from " + last(sorted(hit)[0]))
     heap_allowed = al.get("basic_heap_writers", {})
+    # callers index: a private helper all of whose callers are reviewed writers is part of them (extracted code)
+    callers = {}
+    for f in F.fns.values():
+        if f["crate"] not in ("garnish_lang_simple_data", "garnish_lang_runtime", "garnish_lang_compiler", "garnish_lang_traits"):
+            continue
+        for d, _n in hirq.calls_in(f["hir"]):
+            callers.setdefault(d, set()).add(f["path"])
+
+    def allowed_writer(p, depth=0):
+        if any(p.startswith(a) or a in p for a in heap_allowed):
+            return True
+        f = F.fns.get(p)
+        if f is None or depth > 1 or f.get("vis") == "Public":
+            return False
+        cs = callers.get(p, set())
+        return bool(cs) and all(allowed_writer(c, depth + 1) for c in cs)
+
     for p, hs in sorted(writers.items()):
         r.examine(("heap", p), True, {"fn": p, "writes_heap_via": sorted(hs)})
+        if not any(p.startswith(a) or a in p for a in heap_allowed) and allowed_writer(p):
+            r.info.append("heap writer %s is a private helper called only by reviewed writers (%s)" % (p, ", ".join(sorted(callers.get(p, set())))[:160]))
+            continue
         if not any(p.startswith(a) or a in p for a in heap_allowed):
             r.finding(p, "heap-writer", ":".join(F.fns[p]["span"].split(":")[:2]), "obtains a mutable view of BasicGarnishData's raw heap (%s) but is not one of the reviewed store primitives" % ", ".join(sorted(hs)))
     r.floor("functions writing the raw heap", len(writers), 3)
